@@ -8,6 +8,7 @@
 mod abs;
 mod fam_authz;
 mod fam_eval;
+mod fam_store;
 mod gen;
 mod render;
 
@@ -33,6 +34,17 @@ pub fn guarded(case: &J, f: &dyn Fn(&J) -> Result<J, String>) -> J {
     }
 }
 
+/// a family may answer one event or {"ev":"Multi","events":[..]} (one line each)
+fn emit(w: &mut impl Write, ev: &J) {
+    if ev["ev"] == "Multi" {
+        for e in ev["events"].as_array().into_iter().flatten() {
+            writeln!(w, "{}", e).expect("write");
+        }
+    } else {
+        writeln!(w, "{}", ev).expect("write");
+    }
+}
+
 type Runner = fn(&J) -> Result<J, String>;
 type Driver = fn(u64, usize) -> Vec<J>;
 
@@ -40,6 +52,7 @@ fn family(name: &str) -> Option<(Runner, Driver)> {
     Some(match name {
         "eval" => (fam_eval::run as Runner, fam_eval::drive as Driver),
         "authz" => (fam_authz::run, fam_authz::drive),
+        "store" => (fam_store::run, fam_store::drive),
         _ => return None,
     })
 }
@@ -89,7 +102,7 @@ fn replay(fam: &str, cases: &str, out: &str) -> i32 {
             }
         };
         let ev = guarded(&case, &|c| runner(c));
-        writeln!(w, "{}", ev).expect("write");
+        emit(&mut w, &ev);
         n += 1;
     }
     w.flush().expect("flush");
@@ -108,7 +121,7 @@ fn drive(fam: &str, seed: &str, n: &str, out: &str) -> i32 {
     let mut w = BufWriter::new(std::fs::File::create(out).expect("create out"));
     for case in &cases {
         let ev = guarded(case, &|c| runner(c));
-        writeln!(w, "{}", ev).expect("write");
+        emit(&mut w, &ev);
     }
     w.flush().expect("flush");
     eprintln!("drove {} cases", cases.len());
